@@ -15,7 +15,7 @@ from sim.core import Check, Result, arr_digest, jdigest
 
 
 def gen_perturbation(rng, rl):
-    kinds = ["n_jobs", "verbose", "folder", "ctor_seed", "ambient", "clock"]
+    kinds = ["n_jobs", "verbose", "folder", "ctor_seed", "ambient", "clock", "prelude"]
     if rl:
         kinds.append("sched")
     chosen = rng.sample(kinds, rng.randint(1, 3))
@@ -34,6 +34,8 @@ def gen_perturbation(rng, rl):
             env["ambient"] = rng.randrange(1, 2 ** 31)
         elif k == "clock":
             env["clock_jumps"] = {str(rng.randint(1, 40)): rng.choice([-3600.0, 86400.0, -1e9, 0.5]) for _ in range(rng.randint(1, 3))}
+        elif k == "prelude":
+            env["prelude"] = rng.randrange(1, 2 ** 31)       # another, unrelated calibration runs first in the same process
         elif k == "sched":
             env["sched"], env["trace_lines"] = calsim.gen_sched(rng, True)
     return env
@@ -101,6 +103,9 @@ class C01(Check):
         cfg = calsim.gen_config(rng, rl_prob=0.3, feature=calsim.SAMPLER_KINDS[i % 9])
         if rng.random() < 0.25:
             cfg["convergence_precision"] = rng.choice([0, 0, 1, 2])
+        if rng.random() < 0.12 and cfg["model"]["kind"] != "scripted":
+            cfg["model"]["mutates"] = True            # a user model that scribbles over the parameter array it receives
+            cfg["ensemble"] = rng.choice([1, 1, 2])
         if rng.random() < 0.15:
             cfg["cal_seed"] = rng.choice([0, 0, 1, 2 ** 32 - 1, 2 ** 40 + 3])       # "any calibrator seed": falsy and large ones too
         n = rng.randint(1, 12)
@@ -110,8 +115,9 @@ class C01(Check):
         perts = [gen_perturbation(rng, rl) for _ in range(rng.randint(1, 3))]
         scn = {"engine": "calsim", "config": cfg, "env": {}, "ops": [["calibrate", n]], "perturbations": perts,
                "sim_seed": rng.randrange(2 ** 31)}
-        if rng.random() < (0.05 if tier == "quick" else 0.02):
-            scn["hashseed"] = str(rng.randrange(1, 2 ** 32))      # twin in a fresh interpreter with another PYTHONHASHSEED
+        if rng.random() < (0.08 if tier == "quick" else 0.03):
+            # twin in a fresh interpreter (nothing else ever ran there) with another PYTHONHASHSEED
+            scn["hashseed"] = str(rng.randrange(1, 2 ** 32))
         if rng.random() < (0.015 if tier == "quick" else 0.01):
             # confirmation of the SimParallel stub: the same run on real joblib/loky worker processes
             scn["perturbations"].append({"real_pool": True, "n_jobs": rng.choice([2, 4])})
@@ -119,17 +125,23 @@ class C01(Check):
 
     def run(self, scn):
         res = Result()
+        # twins that start with an unrelated calibration ("prelude") run first, while the process is still pristine: what the
+        # prelude leaves behind in process-level state must not change the calibration that follows it
+        early = {}
+        for k, env in enumerate(scn["perturbations"]):
+            if env.get("prelude"):
+                early[k] = calsim.CalSim(scn, env=env, label=perturbation_label(env)).run()
         base = calsim.CalSim(scn, label="base").run()
         digests = [base.digest()]
         res.stats["executions"] += 1
         done = len(base.completed_batches()) if base.cal is not None else 0
         from sim.core import subprocess_ok
-        for env in scn["perturbations"]:
+        for k, env in enumerate(scn["perturbations"]):
             if env.get("real_pool") and not subprocess_ok():
                 res.stats["skipped:real-pool(no subprocess)"] += 1
                 continue
             label = perturbation_label(env)
-            other = calsim.CalSim(scn, env=env, label=label).run()
+            other = early[k] if k in early else calsim.CalSim(scn, env=env, label=label).run()
             res.stats["executions"] += 1
             for k in env:
                 if k != "salt":
